@@ -64,7 +64,7 @@
   `C07_sift`, i.e. `applySifting_total` for the environment `siftEnv2`).
 -/
 import DDProofs.DynSchedOps
-import DDProofs.Reach3
+import DDProofs.DynSchedReach
 namespace DD
 
 /-! ## the contract of sifting and the generic theorems -/
@@ -355,6 +355,45 @@ theorem C09_chained_calls_recorded (ext : Nat → Nat) (m : Mgr) (hD : DynInv ex
   rw [and_eval, htbl, hp1.doc.2 σ, (hp1.held w hw).2 σ] at h2
   exact h2
 
+/-! ## histories whose decorated calls run under recorded schedules -/
+
+/-- C09 / C17, EVERY HISTORY WITH RECORDED SCHEDULES.  A call is a pair (recorded schedule,
+operation); `runCallS` runs it as `DD.stepLine` does (a decorated operation with a non-empty
+schedule runs with that schedule in `m.sched`, the remainder is dropped; the explicit
+reorderings of `UOp2` carry their own schedule).  The guard `CallGuardS` is the guard of
+DDProofs.Reach3 for a call without schedule; for a call WITH one it asks: the operation is a
+decorated one, two variables are declared, and the model's answer is not
+`MODEL-SCHEDULE-MISMATCH` (as `OpGuard2` asks of `sift sch`; for a schedule recorded from a real
+run that is the harness's tie).  Then: every state reached from the empty manager is good
+(`Good3`: invariant, order bijection, exact counts for the user's ledger, flag cleared, no
+schedule) — with two variables it satisfies `DynInv`, so the theorems above apply to the next
+call; and no call ever answers the internal signal. -/
+theorem C09_every_history_recorded (cs : List SCall) (hg : CallsGuardedS cs St.init) :
+    Good3 (runS cs St.init).m (runS cs St.init).ext ∧
+    (2 ≤ (runS cs St.init).m.nvars → DynInv (runS cs St.init).ext (runS cs St.init).m) ∧
+    ∀ r ∈ resultsS cs St.init, r ≠ .error .needsReordering :=
+  ⟨reachableS_inv cs hg, fun h2 => (reachableS_inv cs hg).dynInv h2,
+    resultsS_noSignal cs St.init Good3.init hg⟩
+
+/-- C09: the same from any good state, and one step spelled out -/
+theorem C09_step_recorded (m : Mgr) (ext : Nat → Nat) (c : SCall) (h : Good3 m ext)
+    (hg : CallGuardS m ext c) :
+    Good3 (runCallS c m).2 (ledger3 c.op m ext) ∧ Held2 ext m (runCallS c m).2 ∧
+    (runCallS c m).1 ≠ .error .needsReordering :=
+  stepS_inv m ext c h hg
+
+/-- C09: a reference the user holds and does not release stays a node and keeps its function of
+the variable NAMES through any guarded continuation, siftings under recorded schedules included -/
+theorem C09_held_every_history_recorded (cs : List SCall) (s : St) (h : Good3 s.m s.ext)
+    (hg : CallsGuardedS cs s) (u : Int)
+    (hheld : ∀ (pre post : List SCall), cs = pre ++ post → 0 < (runS pre s).ext u.natAbs) :
+    (runS cs s).m.tbl.Mem u ∧ ∀ σ, denN (runS cs s).m.tbl u σ = denN s.m.tbl u σ :=
+  runS_held cs s h hg u hheld
+
+/-- C09: a history without recorded schedules is a history of DDProofs.Reach3 -/
+theorem C09_history_recorded_extends (ops : List UOp3) (s : St) :
+    runS (ops.map (SCall.mk [])) s = run3 ops s := runS_nil ops s
+
 /-! ## C17: rejected calls with dynamic reordering enabled, every schedule -/
 
 /-- C17, GENERIC, EVERY SCHEDULE (the failure counterpart of
@@ -589,5 +628,27 @@ theorem C17_recorded_schedule_example :
 example : DynTotalS exSchedExt { exSchedM with sched := exSched }
     (cube [("a", true), ("nosuch", true)] { exSchedM with sched := exSched }) :=
   C17_cube_dyn_anySchedule exSchedExt _ (exSchedM_dynInv.withSched exSched) _
+
+/-- a history from `exSchedM` whose decorated calls carry recorded schedules: the call of the
+example above with its non-default schedule (the request fires, sifting consumes the schedule),
+the result `incref`ed, a second decorated call with no schedule, a call with a bogus operator
+(rejected), a collection -/
+def exSchedCalls : List SCall :=
+  [⟨exSched, .op (.base (.apply "and" 3 (some 5) none))⟩,
+   ⟨[], .op (.base (.incref 8))⟩,
+   ⟨[], .op (.base (.apply "or" 8 (some 6) none))⟩,
+   ⟨[], .op (.base (.apply "nand" 8 (some 6) none))⟩,
+   ⟨[], .op (.base .collectGarbage)⟩]
+
+theorem exSchedM_good3 : Good3 exSchedM exSchedExt :=
+  exSchedM_dynInv.good3 (by decide +kernel)
+
+/-- the history is guarded (in particular the recorded schedule fits), so
+`C09_held_every_history_recorded` applies to it from the state `exSchedM` -/
+theorem exSchedCalls_guarded : CallsGuardedS exSchedCalls ⟨exSchedM, exSchedExt⟩ := by
+  decide +kernel
+
+example : Good3 (runS exSchedCalls ⟨exSchedM, exSchedExt⟩).m (runS exSchedCalls ⟨exSchedM, exSchedExt⟩).ext :=
+  runS_inv exSchedCalls ⟨exSchedM, exSchedExt⟩ exSchedM_good3 exSchedCalls_guarded
 
 end DD
